@@ -47,6 +47,7 @@ PROBE_CODES = ("arg-type", "call-arg", "call-overload", "operator", "attr-define
 Q_FILES = 12
 Q_ANCHORS = ("check-errorcodes.test", "check-ignore.test", "check-overloading.test")  # always in the quick slice: densest ignore / unused-ignore / watcher-probe inputs
 Q_PER_FILE = 50
+Q_MAX_LINES = 12  # quick leaves programs with more expected error lines (O(n^2) subsets) to the thorough tier
 MAX_FULL_SUBSETS = 5
 
 
@@ -723,6 +724,9 @@ def select_programs(ctx: Ctx) -> tuple[list[dict], dict]:
             if ctx.quick and n >= Q_PER_FILE:
                 skipped["beyond per-file quick cap"] += 1
                 continue
+            if ctx.quick and estimate_error_lines(c) > Q_MAX_LINES:
+                skipped["beyond quick per-program error-line cap"] += 1
+                continue
             n += 1
             p = lane.program_of(c)
             p["est_lines"] = estimate_error_lines(c)
@@ -771,7 +775,7 @@ def run(ctx: Ctx) -> Result:
                    "kinds": list(KINDS), "warn_unused_ignores": ["off", "on"],
                    "disable_variants": ["disable", "disable+enable", "disable-super", "per-module", "probe-all", "probe-all-per-module", "probe"],
                    "probe_codes": list(PROBE_CODES),
-                   "quick_slice": f"{Q_FILES} files ({len(Q_ANCHORS)} fixed + seed-selected), first {Q_PER_FILE} usable cases each" if ctx.quick else "all files"},
+                   "quick_slice": f"{Q_FILES} files ({len(Q_ANCHORS)} fixed + seed-selected), first {Q_PER_FILE} usable cases each with <= {Q_MAX_LINES} expected error lines" if ctx.quick else "all files"},
         "samples": samples[:3],
         "counters": dict(sorted(stats.items())),
         **info,
